@@ -283,7 +283,7 @@ pub struct BinaryExpr {
 
 impl fmt::Display for BinaryExpr {
     fn fmt(&self, f: &mut fmt::Formatter) -> fmt::Result {
-        write!(f, "{}{}{}", self.left, self.operator, self.right)
+        write!(f, "({}{}{})", self.left, self.operator, self.right)
     }
 }
 
@@ -295,7 +295,7 @@ pub struct UnaryExpr {
 
 impl fmt::Display for UnaryExpr {
     fn fmt(&self, f: &mut fmt::Formatter) -> fmt::Result {
-        write!(f, "{}{}", self.operator, self.expr)
+        write!(f, "({}{})", self.operator, self.expr)
     }
 }
 
